@@ -157,8 +157,8 @@ EXTRA_TEXT = {
  "C07": " Added: the JSON body helper is exactly json.NewEncoder(w).Encode(v); every MarshalJSON has a value receiver; a component that is a bare $ref to another delegates both JSON methods to it.",
  "C13": " Added: fmt.Sprintf with a single %q is accepted as the literal producer; a field-based step in the bytes flow; every parameter of package goag's functions on the generation path is used (no flag silently replaced).",
  "C14": " Added: value-dependent panics of make/Grow/Repeat/MustCompile with a computed argument; func- or interface-typed fields of package structs are nil-tested before they are called unless every in-package construction sets them; bounds inside splitPath and the path-segment extraction are proven by a case-partitioned evaluation (strcut) whatever their spelling; a witness package is flagged on every run.",
- "C15": " Added: schema-ref-phase (Schema methods that follow Ref into a possibly unfilled component are guarded by Ref == nil in the construction phase); template-nil-chain (typed templates: a field chain through an optional pointer stands under an if/with/and guard of that prefix or a call-site guarantee); the exit-code rule follows Generate* errors interprocedurally to a fatal exit; error-reaches-exit is the failure-flow reading of the driver interpreter (a failure overwritten by a later success in a helper closure is reported).",
- "C12": " Added: comparator sorts count only when the comparator is a plain element comparison; hash/maphash and package-level initialisers are scanned; FuncMap functions are resolved from the literal; the per-spec loop of --dir carries no variable between iterations; file-system reads are classified by role.",
+ "C15": " Added: schema-ref-phase (Schema methods that follow Ref into a possibly unfilled component are guarded by Ref == nil in the construction phase); template-nil-chain (typed templates: a field chain through an optional pointer stands under an if/with/and guard of that prefix or a call-site guarantee); the exit-code rule follows Generate* errors interprocedurally to a fatal exit; error-reaches-exit is the failure-flow reading of the driver interpreter (a failure overwritten by a later success in a helper closure is reported); optional-deref also covers goag's own model: a nillable field of a specification struct that is only assigned below a nil test is an optional source for its readers.",
+ "C12": " Added: the keyed-build exemption of map-range requires that the range key is not reassigned in the loop body; comparator sorts count only when the comparator is a plain element comparison; hash/maphash and package-level initialisers are scanned; FuncMap functions are resolved from the literal; the per-spec loop of --dir carries no variable between iterations; file-system reads are classified by role.",
  "C19": " Added: the re-run clause is decided here as well (C12's order/environment/state enumeration under C19 rule names). Round 3: events, polarity and remove errors are read off a path-sensitive abstract interpretation of the driver (fsinterp: helpers and closures inlined, constant lists unrolled, os.Remove with nil / not-exist / real-failure outcomes), so the verdict does not depend on how the code is factored.",
  "C11": " Added: the OR-combinator is interpreted path by path (authcomb), authenticators by value flow; known findings carry the authenticator set observed today as `match`.",
  "C16": " Added: own-template (the leaf reached for an instance of a declared template returns exactly that template); the middleware loop is recognised by its index progression (revloop) in any spelling.",
